@@ -107,7 +107,46 @@ def explicit_procedures(tier, seed):
     return run
 
 
+def across_applies(tier, seed):
+    """nothing is carried over from one apply() to the next: a rewrite that passed on its own passes again when another module (with CFI
+    procedures ending at the very positions the second rewrite inserts at) was rewritten in the same process just before"""
+    def run():
+        import logging
+        from bounded import driver, validators as VAL
+        from bounded import scen
+        logging.getLogger("gtirb_rewriting").setLevel(logging.CRITICAL)
+        br = BResult()
+        br.bound = "first apply(): a module with one of 5 CFI layouts and an ordinary insertion; second apply() in the same process: a CFI-carrying patch inserted at every boundary of b0 / b1 / b2 of a module with no or another CFI layout"
+        br.clauses = ["C08/across-applies/the-second-rewrite-is-judged-as-if-it-were-the-first"]
+        distinct = set()
+        seconds = []
+        for cfi2 in ("none", "b0b1", "b1b2", "whole"):
+            sh = scen.Shape("plain", True, cfi=cfi2)
+            for t, offs in ((0, (0, 1)), (1, (0, 1, 3)), (2, (0, 1, 2))):
+                for o in offs:
+                    seconds.append((sh, [("ins", o, 0, "cfi", t)]))
+        vals = [VAL.c08_cfi]
+        # each second rewrite alone (the process may already have seen others: that is the point -- they all have to agree)
+        for cfi1 in ("whole", "b1only", "endatb1", "b0b1", "b1b2"):
+            for sh2, ed2 in seconds:
+                try:
+                    driver.run_scenario(scen.Shape("plain", True, cfi=cfi1), [("ins", 1, 0, "plain")], [])
+                    info, problems = driver.run_scenario(sh2, ed2, vals)
+                except Exception as ex:      # noqa
+                    problems = [("EXC", "%s: %s" % (type(ex).__name__, str(ex)[:100]))]
+                br.cases += 1
+                distinct.add((cfi1, repr(sh2), tuple(ed2[0])))
+                for clause, detail in problems:
+                    br.failures.append({"clause": "C08/across-applies/the-second-rewrite-is-judged-as-if-it-were-the-first",
+                                        "witness": {"first apply": "CFI layout %s, a plain insertion into b1" % cfi1, "second apply": {"shape": repr(sh2), "edits": [list(e) for e in ed2]}},
+                                        "detail": "%s: %s" % (clause, detail)})
+        br.nontrivial = len(distinct)
+        return br
+    return run
+
+
 def jobs(tier="quick", seed=0):
     yield from kernels.jobs_for("C08", tier, seed)
     yield apply_bounded.job("C08", tier, seed)
+    yield Job("C08/across-applies-bounded", across_applies(tier, seed), kind="B", func="gtirb_rewriting.rewriting:_CFIProcedureTracker / RewritingContext.apply")
     yield Job("C08/explicit-procedures-bounded", explicit_procedures(tier, seed), kind="B", func="gtirb_rewriting.assembler._create_gtirb:create_cfi_directives / rewriting:_apply_function_insertion")
